@@ -1,0 +1,28 @@
+//go:build verif
+
+package golang
+
+import (
+	"github.com/Workiva/frugal/compiler/generator"
+	"github.com/Workiva/frugal/compiler/parser"
+)
+
+// Verification hooks for property C11 (the compiler is total). Add-only; compiled
+// only with -tags verif.
+
+func VerifSnakeToCamel(s string) string             { return snakeToCamel(s) }
+func VerifTitle(s string) string                    { return title(s) }
+func VerifTitleServiceName(name, svc string) string { return titleServiceName(name, svc) }
+func VerifStartsWithInitialism(s string) string     { return startsWithInitialism(s) }
+
+func verifGen(f *parser.Frugal) *Generator {
+	return &Generator{&generator.BaseGenerator{Options: map[string]string{}, Frugal: f}, nil}
+}
+
+// VerifGetEnumFromThriftType exposes the wire-type classification helper.
+func VerifGetEnumFromThriftType(f *parser.Frugal, t *parser.Type) string {
+	return verifGen(f).getEnumFromThriftType(t)
+}
+
+// VerifIsPrimitive exposes isPrimitive.
+func VerifIsPrimitive(f *parser.Frugal, t *parser.Type) bool { return verifGen(f).isPrimitive(t) }
